@@ -6,8 +6,8 @@ set -uo pipefail
 cd "$(dirname "$0")/.."
 WT="$1"; PATCH="$2"; shift 2
 TIER="${SEED_TIER:-quick}"
-git -C "$WT" checkout -q -- . && git -C "$WT" checkout -q --detach "$(git -C /repo rev-parse HEAD)" && git -C "$WT" apply "$PATCH" || { echo "patch does not apply"; exit 2; }
-trap 'git -C "$WT" checkout -q -- .' EXIT
+git -C "$WT" checkout -q -- . && git -C "$WT" clean -fdq -e _seed && git -C "$WT" checkout -q --detach "$(git -C /repo rev-parse HEAD)" && git -C "$WT" apply "$PATCH" || { echo "patch does not apply"; exit 2; }
+trap 'git -C "$WT" checkout -q -- .; git -C "$WT" clean -fdq -e _seed' EXIT
 for id in "$@"; do
   out=$(VERIF_REPO="$WT" timeout "${SEED_TIMEOUT:-1800}" ./check "$id" "$TIER" 2>&1); rc=$?
   nv=$(echo "$out" | grep -c '^VIOLATION')
